@@ -323,7 +323,7 @@ fn fam_rotation(ch: Chooser, ctx: &RunCtx) -> RunOut {
 /// the client uploads and the server has nothing of its own to send: on an unvalidated path
 /// its packets are acknowledgements that carry the PATH_CHALLENGE
 fn fam_upload(ch: Chooser, ctx: &RunCtx) -> RunOut {
-    run(ch, ctx, BasicOpts { op_kinds: vec![7, 7, 7, 1], ops_max: 6, streams_max: 3, size_max: 300_000, server_plans: false, max_drop: 400, harness_cc_rate: 200, ..Default::default() }, 4)
+    run(ch, ctx, BasicOpts { op_kinds: vec![7, 7, 7, 1], ops_max: 6, streams_max: 3, size_max: 300_000, server_plans: false, max_drop: 400, harness_cc_rate: 600, ..Default::default() }, 4)
 }
 /// the attacker forwards packets right after the server completed the handshake, while the
 /// client may still be retransmitting its Handshake flight (lossy handshakes)
